@@ -538,6 +538,7 @@ class Pointwise:
     UFUNCS = {"np.divide": "/", "np.multiply": "*", "np.add": "+", "np.subtract": "-"}
 
     bool_params = ()
+    finite_param = None
 
     def cond(self, e):
         if isinstance(e, ast.Name) and e.id in self.masks:
@@ -547,6 +548,14 @@ class Pointwise:
             if nb not in [q for q, _ in self.params]:
                 self.params.append((nb, "Bool"))
             return f"({nb} = true)"
+        if isinstance(e, ast.Call) and attr_chain(e.func) == "np.isfinite" and len(e.args) == 1 and self.finite_param:
+            # every `np.isfinite(..)` mask of the function is the same set of cells (the inputs declared infinite)
+            if self.finite_param not in [q for q, _ in self.params]:
+                self.params.append((self.finite_param, "Bool"))
+            note = f"every `np.isfinite(…)` mask is the Boolean parameter `{self.finite_param}` (the arrays are infinite at the same cells)"
+            if note not in self.notes:
+                self.notes.append(note)
+            return f"({self.finite_param} = true)"
         if isinstance(e, ast.BinOp) and isinstance(e.op, ast.Mult):
             # product of Boolean arrays = conjunction
             return f"({self.cond(e.left)} ∧ {self.cond(e.right)})"
@@ -595,6 +604,12 @@ class Pointwise:
                 return f"(min {self.expr(e.args[0], mask)} {self.expr(e.args[1], mask)})"
             if ch == "np.where" and len(e.args) == 3 and not e.keywords:
                 return f"(if {self.cond(e.args[0])} then {self.expr(e.args[1], mask)} else {self.expr(e.args[2], mask)})"
+            if isinstance(f, ast.Attribute) and isinstance(f.value, ast.Call) and isinstance(f.value.func, ast.Name) \
+                    and f.value.func.id == "super" and not f.value.args:
+                self.notes.append(f"`{ast.unparse(e)}` is the parameter `super_{f.attr}` (the base class's cell)")
+                return self.var("super_" + f.attr)
+            if ch == "np.expand_dims" and len(e.args) == 1 and [k.arg for k in e.keywords] == ["axis"]:
+                return self.expr(e.args[0], mask)
             if ch == "np.expand_dims" and len(e.args) == 2 and not e.keywords:
                 return self.expr(e.args[0], mask)          # broadcasting: the same cell value
             if ch == "np.sum" and len(e.args) == 1 and {k.arg for k in e.keywords} <= {"axis", "keepdims"} \
@@ -680,6 +695,12 @@ class Pointwise:
                 cur = self.expr(st.target)
                 self.let(n, f"({cur} {op} {self.expr(st.value)})")
                 return None
+        if isinstance(st, ast.If) and not st.orelse and len(st.body) == 1 and isinstance(st.body[0], ast.Raise) \
+                and ast.unparse(st.test).startswith("np.isnan(") and ast.unparse(st.test).endswith(".any()"):
+            self.notes.append(f"`if {ast.unparse(st.test)}: raise` skipped (no NaN over the rationals)")
+            return None
+        if isinstance(st, ast.If) and isinstance(st.test, ast.Name) and st.test.id == "DEBUG_TRACE":
+            return None
         if isinstance(st, ast.If) and not st.orelse and len(st.body) == 1 and isinstance(st.body[0], ast.Raise):
             t = st.test
             if isinstance(t, ast.Call) and isinstance(t.func, ast.Attribute) and t.func.attr == "any" and not t.args:
@@ -714,15 +735,16 @@ class Pointwise:
 
 
 def lean_formula(name, fn, doc, nat_params=(), inline=None, inline_nat=None, inline_none=(), result=None, fixed_params=None,
-                 bool_params=(), body=None):
+                 bool_params=(), body=None, finite_param=None):
     pw = Pointwise(fn, nat_params=nat_params, inline=inline)
+    pw.finite_param = finite_param
     pw.inline_nat = dict(inline_nat or {})
     pw.inline_none = tuple(inline_none)
     pw.bool_params = tuple(bool_params)
     try:
         if fixed_params:
             for q in fixed_params:
-                if q in pw.bool_params:
+                if q in pw.bool_params or q == finite_param:
                     pw.params.append((q, "Bool"))
                 else:
                     pw.var(q)
@@ -855,6 +877,14 @@ def gen_formulas(trees, rec_tree):
                 return got
             raise Untranslatable(f"single augmented assignment to {target} not found")
         return sel
+    parts.append(lean_formula(
+        "stock_gap_base_cell", find_func(base, "calc_matrix_stock_gap"),
+        "`ARIOBaseModel.calc_matrix_stock_gap`, one (input, industry) cell.",
+        fixed_params=["is_finite", "matrix_stock_goal", "inputs_stock"], finite_param="is_finite"))
+    parts.append(lean_formula(
+        "stock_gap_psi_cell", find_func(psi_cls, "calc_matrix_stock_gap"),
+        "`ARIOPsiModel.calc_matrix_stock_gap`, one (input, industry) cell.",
+        fixed_params=["restoration_tau", "super_calc_matrix_stock_gap"]))
     parts.append(lean_formula(
         "need_cell", orders_fn, "`calc_orders`: one (input, industry) cell of the need = inventory gap + input used by realised production.",
         fixed_params=["matrix_stock_gap", "production", "tech_mat"], body=aug_of("matrix_stock_gap"), result="matrix_stock_gap"))
